@@ -17,7 +17,7 @@ RULE = (
     "documents from the marker grammar (all block/inline kinds, thematic breaks and headings inside containers), risky-shape "
     "templates (ragged tables, duplicate ids/targets/footnote labels, hr/heading/table/footnote/target in every container, "
     "directives returning sections) and token soup, under random valid configurations; each is checked after parse and after "
-    "transforms; distinct by hash of (text, config); non-trivial = the parsed tree has >= 2 container levels or >= 1 id"
+    "transforms; through Sphinx also invariant 5 on the resolved doctree against the warning stream, every risky shape alone; distinct by hash of (text, config); non-trivial = the parsed tree has >= 2 container levels or >= 1 id"
 )
 ASSUME = [
     "halt_level=5 (docutils' default 4 raises SystemMessage for SEVERE by docutils design)",
